@@ -338,7 +338,8 @@ fn check_b(spec: &CmdSpec, cmd: &clap::Command, prefix: &[&str], path: &[&str], 
                         Outcome::Err(e) => {
                             // the engine does not track which arguments were already given: a
                             // repeat of a non-repeatable argument is not what this clause is about
-                            let repeat = e.kind == "ArgumentConflict" && e.rendered.contains("cannot be used multiple times");
+                            // (the trees declare no conflicts, so ArgumentConflict can only be a repeat)
+                            let repeat = e.kind == "ArgumentConflict";
                             let cluster_has = |ch: char| !c.starts_with("--") && c.contains(ch);
                             let fine = repeat
                                 || (e.kind == "DisplayHelp" && (id == "<help>" || cluster_has('h')))
